@@ -187,6 +187,8 @@ class DeepARTMAP(BaseEstimator, ClassifierMixin, ClusterMixin):
         """
         if level < 0:
             level += len(self.layers)
+        if not 0 <= level < len(self.layers):
+            raise IndexError("level out of range")
         y_b = self.layers[level].map_a2b(y_a)
         if level > 0:
             return self.map_deep(level - 1, y_b)
